@@ -232,7 +232,51 @@ def reuse(cell):
     return {'v': out, 'n': n, 'states': 3, 'transitions': n, 'traces': 1, 'nt': cell}
 
 
-PARTS = {'lookup': lookup, 'negative': negative, 'apex': apex, 'real': real, 'reuse': reuse}
+FLAGS = (8, 1, 2, 4, 9, 12, 3)      # RANGE, ZERO_UP, ZERO_DOWN, MACH, ZERO_UP|RANGE, MACH|RANGE, ZERO_UP|ZERO_DOWN
+SPEEDS = (900.0, 600.0, 300.0)
+
+
+def flagsearch(cell):
+    """the remaining search helpers (by event flag, by speed, by an arbitrary condition): the first row, in order, that satisfies the query -
+    what a sequential scan finds - and -1 when none does; every flag sequence of length <= 4 (thorough 5) x every speed pattern of a small set"""
+    import py_ballisticcalc as pb
+    from py_ballisticcalc import helpers as H
+    flags, speeds = cell
+    rows = []
+    for i, (f, v) in enumerate(zip(flags, speeds)):
+        r = _row(i, i, 0.0, f)
+        rows.append(r._replace(velocity=pb.Unit.MPS(v)))
+    hr = pb.HitResult(None, rows, True)
+    out = []
+    n = 0
+
+    def scan(pred):
+        return next((i for i, r in enumerate(rows) if pred(r)), -1)
+
+    def cmp(name, got, exp):
+        nonlocal n
+        n += 1
+        if got != exp and len(out) < 4:
+            out.append({'msg': f'rows with flags {flags} and speeds {speeds} m/s: {name} returned {got!r}, a sequential scan finds {exp!r}', 'key': None})
+    cmp('find_mach_point_index', H.find_mach_point_index(hr), scan(lambda r: r.flag & 4))
+    cmp('find_touch_point_index', H.find_touch_point_index(hr), scan(lambda r: r.flag & 2))
+    cmp('find_index_of_point_with_flag()', H.find_index_of_point_with_flag(hr), scan(lambda r: r.flag & 2))
+    for fl in (1, 2, 4, 8):
+        cmp(f'find_index_of_point_with_flag({fl})', H.find_index_of_point_with_flag(hr, fl), scan(lambda r: r.flag & fl))
+    for q in (1000.0, 900.0, 750.0, 600.0, 300.0, 100.0):
+        cmp(f'find_velocity_less_than_index({q} m/s)', H.find_velocity_less_than_index(hr, q), scan(lambda r: (r.velocity >> pb.Unit.MPS) < q))
+        q_fps = pb.Unit.MPS(q) >> pb.Unit.FPS
+        cmp(f'find_velocity_less_than_index({q_fps} fps)', H.find_velocity_less_than_index(hr, q_fps, pb.Unit.FPS), scan(lambda r: (r.velocity >> pb.Unit.FPS) < q_fps))
+    cmp('find_first_index_matching_condition(time >= 1 and flag != RANGE)', H.find_first_index_matching_condition(hr, lambda r: r.time >= 1 and r.flag != 8),
+        scan(lambda r: r.time >= 1 and r.flag != 8))
+    # the result object itself: iteration and indexing are the row list
+    n += 1
+    if list(hr) != rows or any(hr[i] is not rows[i] for i in range(len(rows))):
+        out.append({'msg': f'rows with flags {flags}: iterating / indexing the result does not give the rows in order', 'key': None})
+    return {'v': out, 'n': n, 'states': 1, 'transitions': n, 'traces': 1, 'nt': cell if len(set(flags)) > 1 else None}
+
+
+PARTS = {'lookup': lookup, 'negative': negative, 'apex': apex, 'real': real, 'reuse': reuse, 'flagsearch': flagsearch}
 
 
 def nondecreasing(L):
@@ -258,4 +302,9 @@ def plan(tier):
     for L in (1, 2, 3) if tier == 'quick' else (1, 2, 3, 4):
         ls = nondecreasing(L)
         ru += [[a, b] for a in ls for b in ls if a != b]
-    return [('lookup', cells), ('negative', neg), ('apex', ap), ('real', rl), ('reuse', ru)]
+    fs = []
+    for L in range(0, 5 if tier == 'quick' else 6):
+        for fl in itertools.product(FLAGS, repeat=L):
+            for sp in ([tuple(SPEEDS[min(i, 2)] for i in range(L))] + ([tuple(SPEEDS[(i + 1) % 3] for i in range(L)), tuple(600.0 for _ in range(L))] if L else [])):
+                fs.append([list(fl), list(sp)])
+    return [('lookup', cells), ('negative', neg), ('apex', ap), ('real', rl), ('reuse', ru), ('flagsearch', fs)]
